@@ -150,6 +150,14 @@ class Axioms(object):
         self._names.add(name)
         self.items.append((name, term))
 
+    def replace(self, name, term):
+        for i, (n, _) in enumerate(self.items):
+            if n == name:
+                self.items[i] = (name, term)
+                return
+        self._names.add(name)
+        self.items.append((name, term))
+
     def terms(self):
         return [t for _, t in self.items]
 
